@@ -196,7 +196,7 @@ def case_strategy(draw, tier="quick"):
     for si in range(nscopes):
         sc = {"reopen": False, "defs": [], "enddef": None, "data": []}
         if si > 0:
-            sc["reopen"] = G.chance(draw, 25)
+            sc["reopen"] = G.chance(draw, 25) and not scopes[-1].get("leave_indep")
             mo.begin_scope(sc["reopen"])
         n_new = draw(st.integers(1, 4)) if si == 0 else draw(st.sampled_from([0, 1, 1, 2, 2, 3]))
         extras = draw(st.integers(0, 4))
@@ -290,8 +290,11 @@ def case_strategy(draw, tier="quick"):
                 parts = G.split_box(draw, start, count, stride, k)
                 if d["rec"]:
                     numrecs = max(numrecs, start[0] + count[0])
-                sc["data"].append({"a": "write", "v": v, "seed": draw(st.integers(0, 10 ** 6)),
+                sc["data"].append({"a": "write", "v": v, "seed": draw(st.integers(0, 10 ** 6)), "indep": G.chance(draw, 25),
                                    "parts": [None if pt is None else [pt[0], pt[1]] for pt in parts]})
+        # the next redefinition may be entered straight from independent data mode (ncmpi_redef leaves it implicitly)
+        if si < nscopes - 1 and sc["data"] and sc["data"][-1].get("indep") and G.chance(draw, 70):
+            sc["leave_indep"] = True
         scopes.append(sc)
     return {"fmt": fmt, "k": k, "dims": dims, "scopes": scopes}
 
@@ -482,17 +485,30 @@ def build(case):
                 parts = a["parts"]
                 if len(parts) != k or (not d["dims"] and k > 1):
                     continue
-                sn = p.s.same_n()
+                indep = bool(a.get("indep"))
+                sn = p.s.same_n() if not indep else None
                 nview = fm.numrecs
                 applied = []
+                if indep:
+                    p.op("begin_indep", step=True, f="f0")
+                    labels.add("write_indep")
                 for r in range(k):
                     if parts[r] is None:
                         continue
                     s, c = parts[r]
                     rq = {"var": v, "form": "vara", "start": list(s), "count": list(c), "seed": a["seed"] + 17 * r,
                           "mt": M.XT_NATIVE_MT[d["xt"]], "vclass": "wild"}
-                    _, _, values, idx = p.put(fm, r, rq, nview, coll=True, sn=sn, step=True, apply=False)
+                    _, _, values, idx = p.put(fm, r, rq, nview, coll=not indep, sn=sn, step=not indep, apply=False)
+                    if indep and k > 1:
+                        p.op("barrier", expect=None)
                     applied.append((idx, values))
+                if indep:
+                    if a is sc["data"][-1] and sc.get("leave_indep") and si < len(case["scopes"]) - 1 and not case["scopes"][si + 1].get("reopen"):
+                        labels.add("redef_from_indep_mode")
+                        if d["rec"] and k > 1:
+                            nontrivial = True
+                    else:
+                        p.op("end_indep", step=True, f="f0")
                 before = int((fm.vars[v].mask == 2).sum())
                 for idx, values in applied:
                     fm.write(v, idx, values)
